@@ -215,6 +215,14 @@ fn apply(op: Op) {
                 put_var(a, id, cc);
             }
         },
+        Code::NewOwning => {
+            let t = var_id(b);
+            let h = c.vars[b as usize].borrow_mut().take().unwrap();
+            c.model.borrow_mut().vars[b as usize] = None;
+            if let Some((id, cc)) = make_node_owning(Some(false), Some((t, h))) {
+                put_var(a, id, cc);
+            }
+        },
         Code::Dup => {
             let id = var_id(a);
             let cl = c.vars[a as usize].borrow().as_ref().unwrap().clone();
@@ -1872,6 +1880,14 @@ pub fn enabled(s: &Summary, cfg: &LensCfg, out: &mut Vec<Op>) {
     if let Some(e) = ev {
         if can_alloc && on(Code::New) {
             out.push(Op::new(Code::New, e as u8, 0, 0));
+        }
+        if can_alloc && on(Code::NewOwning) && cfg.max_faults == 0 {
+            // (the destination may be the source variable itself: it is emptied first)
+            for j in 0..nv {
+                if s.vars[j].some {
+                    out.push(Op::new(Code::NewOwning, e as u8, j as u8, 0));
+                }
+            }
         }
         if can_alloc && on(Code::NewCyclic) {
             for k in &cfg.closure_menu {
